@@ -1,6 +1,7 @@
 package props
 
 import (
+	"encoding/json"
 	"fmt"
 	"math/rand"
 	"os"
@@ -25,6 +26,8 @@ type scSpec struct {
 	Vars      map[string]any `json:"vars,omitempty"`
 	GVars     map[string]any `json:"gvars,omitempty"`
 	DepOnBy   bool           `json:"dep_on_by"`
+	ProbeTpl  string         `json:"probe_tpl,omitempty"` // templated liveness exec probe command
+	Short     bool           `json:"short,omitempty"`     // replicas exit at once (survivors are not running when scaled)
 	LogLoc    bool           `json:"log_loc"`
 	ViaClient bool           `json:"via_client"`
 }
@@ -40,7 +43,14 @@ func (sp *scSpec) yaml(worldID, replicas int, dir string) string {
 	}
 	b.WriteString("processes:\n")
 	fmt.Fprintf(&b, "  by:\n    command: %s\n", yq(sim.FormatCommand(sim.Script{W: worldID, RunMs: []int{-1}}, "")))
-	fmt.Fprintf(&b, "  sc:\n    command: %s\n", yq(sim.FormatCommand(sim.Script{W: worldID, RunMs: []int{-1}, Out: []sim.Chunk{{Stream: "o", N: 3}}}, sp.CmdRest)))
+	run := []int{-1}
+	if sp.Short {
+		run = []int{1}
+	}
+	fmt.Fprintf(&b, "  sc:\n    command: %s\n", yq(sim.FormatCommand(sim.Script{W: worldID, RunMs: run, Out: []sim.Chunk{{Stream: "o", N: 3}}}, sp.CmdRest)))
+	if sp.ProbeTpl != "" {
+		fmt.Fprintf(&b, "    liveness_probe:\n      exec:\n        command: %s\n      period_seconds: 60\n      initial_delay_seconds: 50\n", yq(sp.ProbeTpl))
+	}
 	if replicas != 1 {
 		fmt.Fprintf(&b, "    replicas: %d\n", replicas)
 	}
@@ -102,6 +112,10 @@ func genScSpec(rng *rand.Rand, i int) scSpec {
 		}
 	}
 	sp.DepOnBy = rng.Intn(3) == 0
+	if rng.Intn(2) == 0 {
+		sp.ProbeTpl = []string{"test -n sc-{{.PC_REPLICA_NUM}}", "true", "test {{.PC_REPLICA_NUM}} -ge 0"}[rng.Intn(3)]
+	}
+	sp.Short = i%5 == 2
 	sp.LogLoc = rng.Intn(4) == 0
 	return sp
 }
@@ -121,7 +135,19 @@ func cfgView(pc *types.ProcessConfig) map[string]any {
 		"command": pc.Command, "description": pc.Description, "working_dir": pc.WorkingDir, "log_location": pc.LogLocation,
 		"executable": pc.Executable, "args": pc.Args, "environment": []string(pc.Environment), "namespace": pc.Namespace,
 		"depends_on": fmt.Sprint(len(pc.DependsOn)), "disabled": pc.Disabled,
+		"liveness_probe": pc.LivenessProbe, "readiness_probe": pc.ReadinessProbe, "vars": jsonNorm(pc.Vars),
 	}
+}
+
+// jsonNorm passes a value through JSON so that 1 and 1.0 compare equal
+func jsonNorm(v any) any {
+	b, err := json.Marshal(v)
+	if err != nil {
+		return "ERR"
+	}
+	var x any
+	_ = json.Unmarshal(b, &x)
+	return x
 }
 
 func runScale(c fw.Case) fw.Result {
@@ -151,6 +177,7 @@ func runScale(c fw.Case) fw.Result {
 	fail := func(key, format string, a ...any) {
 		r.Add("C13", key, format, a...)
 	}
+	expectLaunches := sp.Initial + 1
 	waitAlive := func(n int) bool {
 		// n replicas of sc + the bystander alive, nothing else
 		return w.WaitFor(5*time.Second, func(v *sim.WorldView) bool {
@@ -159,6 +186,12 @@ func runScale(c fw.Case) fw.Result {
 				_ = e
 			}
 			alive = v.AliveTotal()
+			if sp.Short {
+				// the replicas exit at once: only the bystander stays alive, and
+				// every replica launched so far has exited
+				l := v.Count(sim.EvLaunch, "")
+				return alive == 1 && l >= expectLaunches && v.Count(sim.EvExit, "") >= l-1
+			}
 			return alive == n+1
 		})
 	}
@@ -199,6 +232,9 @@ func runScale(c fw.Case) fw.Result {
 		want := cur
 		if !expectErr {
 			want = target
+		}
+		if want > cur {
+			expectLaunches += want - cur
 		}
 		if !waitAlive(want) {
 			fail("replica-commands", "step %d: after scaling %s from %d to %d the number of live commands is %d, expected %d (+1 bystander)", step, name, cur, target, w.AliveCount()-1, want)
@@ -264,6 +300,9 @@ func runScale(c fw.Case) fw.Result {
 			if _, err := env.Runner.GetProcessLog(n, 10, 0); err != nil {
 				fail("replica-log", "step %d: GetProcessLog(%s): %v", step, n, err)
 			}
+			if st, ok := states[n]; !ok || st.Name != n {
+				fail("replica-state", "step %d: no state listed for replica %s", step, n)
+			}
 		}
 		// events of this step
 		launches, signals, byEvents := 0, 0, 0
@@ -302,7 +341,7 @@ func runScale(c fw.Case) fw.Result {
 		if launches != added {
 			fail("survivors-disturbed-or-not-launched", "step %d (scale %d -> %d): %d launches observed, expected %d (survivors must not be restarted, added replicas must be launched)", step, cur, target, launches, added)
 		}
-		if signals < removed || (removed == 0 && signals > 0) {
+		if !sp.Short && (signals < removed || (removed == 0 && signals > 0)) {
 			fail("signals", "step %d (scale %d -> %d): %d stop signals observed, expected %d removed replicas to be signalled and nobody else", step, cur, target, signals, removed)
 		}
 		if byEvents > 0 {
